@@ -1,5 +1,6 @@
 import Adlt.Remote.Proofs
 import Adlt.Remote.IncrProofs
+import Adlt.Remote.Late
 import Adlt.Gen.Consts
 /-! # C16 — streams deliver exactly the requested window of the filtered log; paging and lookups   (partial)
 
@@ -91,6 +92,20 @@ example :
     let s := Inc.runEv keep 4 (Inc.SC.new true true 1 3) [.arrive 3, .tick 2, .arrive 7, .tick 100, .tick 100]
     let s2 := Inc.runEv keep 4 s [.cw 0 2, .tick 1]
     s.filtered = [0, 2, 4, 6, 8] ∧ s.delivered = [2, 4] ∧ Inc.Settled s ∧ s2.delivered = [0, 2] := by decide
+
+/-- collect mode `one_pass_streams` (messages every stream has processed are dropped): a stream created after `drained`
+    messages were dropped starts behind them. With nothing dropped the round is the ordinary one; a stream without filters
+    has, after a round, processed every message received so far (its progress mark is the number of messages received -
+    the defect repaired by f47693d broke this); a filtered stream indexes exactly the matching positions behind the dropped
+    ones up to its progress mark -/
+theorem C16_late_stream_rounds (keep : Nat → Bool) (pc : Nat) (s : Inc.SC) (c drained : Nat) :
+    (s.processed ≤ s.allLen → Inc.procNewD keep pc s c 0 = Inc.procNew keep pc s c) ∧
+    (s.filtersActive = false → drained < s.allLen → s.processed ≤ s.allLen → (Inc.procNewD keep pc s c drained).processed = s.allLen) ∧
+    (s.filtersActive = true → s.isStream = true → s.processed = 0 → s.filtered = [] → drained < s.allLen →
+      (Inc.procNewD keep pc s c drained).filtered =
+        Inc.matchRange keep drained ((Inc.procNewD keep pc s c drained).processed - drained) ∧
+      drained ≤ (Inc.procNewD keep pc s c drained).processed ∧ (Inc.procNewD keep pc s c drained).processed ≤ s.allLen) :=
+  ⟨Inc.procNewD_zero keep pc s c, Inc.procNewD_unfiltered_mark keep pc s c drained, Inc.procNewD_stream_index keep pc s c drained⟩
 
 /-- non-vacuity: three messages, the filter keeps 0 and 2; window [1,3) of that is message 2; search pages of size 1 -/
 example :
